@@ -89,14 +89,15 @@ func (f *MakeArray) Call(s *slip.Scope, args slip.List, depth int) slip.Object {
 		dims = []int{int(ta)}
 	case slip.List:
 		for _, v := range ta {
-			if num, _ := v.(slip.Fixnum); 0 < num {
+			// A dimension of zero is allowed just as it is for a fixnum.
+			if num, ok := v.(slip.Fixnum); ok && 0 <= num {
 				dims = append(dims, int(num))
 			} else {
-				slip.TypePanic(s, depth, "dimensions", args[0], "list of positive fixnums")
+				slip.TypePanic(s, depth, "dimensions", args[0], "list of non-negative fixnums")
 			}
 		}
 	default:
-		slip.TypePanic(s, depth, "dimensions", ta, "fixnum", "list of positive fixnums")
+		slip.TypePanic(s, depth, "dimensions", ta, "fixnum", "list of non-negative fixnums")
 	}
 	rest := args[1:]
 	if option, has := slip.GetArgsKeyValue(rest, slip.Symbol(":element-type")); has {
